@@ -1313,6 +1313,10 @@ def c02(tier, rng, rep, only=None):
                           {"kind": "verdict", "decl": d.to_json(), "decl_rust": runner.decl_module(d, None).split("pub fn run")[0]}, no_input=True)
     fams = {}
     for d in g.decls:
+        if "mustreject" in d.tags and d.id in g.live:
+            rep.violation("declaration %s writes rules the macro cannot honour together; it must be refused, but it compiles (a rule is silently dropped)" % d.id,
+                          {"kind": "verdict", "decl": d.to_json(), "decl_rust": runner.decl_module(d, None).split("pub fn run")[0]})
+    for d in g.decls:
         if d.id not in g.live:
             continue
         cs = g.by_decl.get(d.id, [])
